@@ -29,7 +29,7 @@ CONSTANTS
   MaxEdits = 4
   NCmtCls = 7
   NCppForms = 18
-  NGarb = 3
+  NGarb = 5
   DirectiveCls <- DirCls
 INVARIANT WellNested
 INVARIANT GrammarInNest
